@@ -200,7 +200,7 @@ theorem and_clause_phase1_aux (fuel : Nat) (f : FUid) (x : InstX) (cfg : FlowCfg
         have hsz := C.hsize
         have H : HeadAt s f u.1 i x cfg hd :=
           { hi := F.hi, hx := F.hx, hc := F.hc, hh := hfh, hlt := by rw [hpos]; omega, hst := by rw [hstat]; decide }
-        obtain ⟨s1, i1, hadv, F1, hr1, hv1⟩ := advanceMember_spec fuel s f u.1 i x cfg hd l mu pe n H hown hstat C
+        obtain ⟨s1, i1, hadv, F1, hr1, hv1, _⟩ := advanceMember_spec fuel s f u.1 i x cfg hd l mu pe n H hown hstat C
           (by rw [hpos]; exact hshape_u.1) (by rw [hpos]; exact hshape_u.2) hndv
         -- the count of parked heads is GroupVM's
         have hcount : ((hview i).filter fun t => t.2.2 ≠ .inactive && t.2.1 = pe + 1).length = countWait pre + countWait r := by
